@@ -19,7 +19,7 @@ type c18SV string
 func (s *c18SV) Set(v string) error { *s = c18SV(v); return nil }
 func (s *c18SV) String() string     { return string(*s) }
 
-var c18OptNames = []string{"a", "b", "A", "ab", "ba", "aa", "x1", "long-name", "f", "force", "1", "o_o"}
+var c18OptNames = []string{"a", "b", "A", "ab", "ba", "aa", "x1", "long-name", "f", "force", "1", "o_o", "9", "a-name-longer-than-sixty-four-bytes-0123456789-0123456789-0123456789", "B", "aB", "é", "日本"}
 var c18ArgNames = []string{"X", "Y", "XY", "X1", "X_Y", "x", "Xy", "1X", "_X", "OPTIONS", "OPTIONSX", "X-Y", "X.", "-X", "É", "[X]", "X...", "X|Y", "--", "", "A", "AB", "X=<y>", "(X)"}
 
 func init() {
@@ -69,6 +69,9 @@ func runC18(c *core.Ctx) {
 		for d := 0; d < k && !aborted; d++ {
 			if r.Intn(3) > 0 {
 				cnt := 1 + r.Intn(3)
+				if r.Intn(12) == 0 {
+					cnt = 4 + r.Intn(3) // a long list of names
+				}
 				perm := r.Perm(len(c18OptNames))
 				var names []string
 				for _, pi := range perm[:cnt] {
